@@ -68,6 +68,13 @@ def history(kind, junk, ops, w, rng):
         for nm in names:
             allnames += [nm + "x", nm]
         return ("cat", body + [("paren", tuple(allnames), ("cat", [("read", nm + "x") for nm in names] + [("read", nm) for nm in names] + [word]))])
+    if kind == "positioned":
+        # the operands arrive with non-zero positions (third thing yielded by `elem`): results are numbered afresh by the word
+        body = list(junk)
+        for k, o in enumerate(ops):
+            filler = [rng.choice(POOL[:8]) for _ in range(k + 1)]
+            body.append(("cat", [("cap", (), ("alt", filler + [o])), ("word", "elem"), ("infix", ("word", "pos"), "==", ("int", k + 1, "dec"))]))
+        return ("cat", body + [word])
     if kind == "stream":
         # the word sits in a stream: other operand tuples (often of the wrong type) arrive before and after this one
         def tup():
@@ -89,7 +96,7 @@ def job(payload):
         if any(o[0] == "block" for o in ops):
             hk = ["direct", "detour"]
         elif ops:
-            hk += ["alias", "stream"]       # judged by O1 only: their results legitimately differ from the plain histories
+            hk += ["alias", "stream", "positioned"]       # judged by O1 only: their results legitimately differ from the plain histories
         out["n"] += 1
         out["depths"][str(len(junk) + len(ops))] = out["depths"].get(str(len(junk) + len(ops)), 0) + 1
         try:
@@ -114,7 +121,7 @@ def job(payload):
                 # the order of two DIFFERENT closure values is unspecified (the hidden closure type is outside the ordering laws,
                 # and distinct blocks are ordered by where their code lives): no history comparison for order words on them
                 unordered_closures = sum(1 for o in ops if o[0] == "block") >= 2 and isinstance(w, str) and w.lstrip("?!") in ("lt", "gt", "le", "ge")
-                if kind not in ("alias", "stream") and not unordered_closures:
+                if kind not in ("alias", "stream", "positioned") and not unordered_closures:
                     # history independence: the top |ops|+produced slots must agree (junk differs for scope/let: same junk list)
                     sig = (r["st"], sorted(zcheck.exact_key(s) for s in zcheck.eng_results(r)) if r["st"] == "done" else None, bool(r["stderr"]))
                     if first is None:
